@@ -56,7 +56,8 @@ pub fn x509_summary(c: &X509) -> Value {
 		.ok()
 		.and_then(|k| k.public_key_to_der().ok())
 		.map(|d| cu::hexs(&cu::sha256(&d)));
-	json!({"sans": sans, "spki_sha256": spki, "not_after": c.not_after().to_string()})
+	let der_sha = c.to_der().ok().map(|d| cu::hexs(&cu::sha256(&d)));
+	json!({"sans": sans, "spki_sha256": spki, "not_after": c.not_after().to_string(), "der_sha256": der_sha})
 }
 
 pub fn observe_pair(cert_path: &Path, key_path: &Path) -> Value {
